@@ -28,12 +28,22 @@ Record cobs := CO {
   co_split : nat }.           (* > 0: the entry point was called twice on the same tree, first with
                                  the first co_split rows, then with the rest                   *)
 
+(* a history on one or two trees: add_path_to_tree calls interleaved with structural edits made
+   through the node API (nodes are addressed by their name path in the tree as it is then) *)
+Inductive sop :=
+| SAdd (ti : nat) (path : str) (na : attrs) (ob : cobs)   (* add_path_to_tree(root_ti, path, ...) and what was seen after it *)
+| SDel (ti : nat) (p : list str)                           (* del parent[name]   : the node at p is detached               *)
+| SMove (ti : nat) (src dst : list str)                    (* node(src).parent = node(dst)                                  *)
+| SSort (ti : nat) (p : list str).                         (* node(p).sort(key=name)                                        *)
+
 Record ccase := CC {
   cc_sep : str;  cc_dup : bool;
   cc_tsep : str;  cc_tree : otree;  cc_start : nat;     (* existing tree, tags = pre-order numbers *)
   cc_pcol : str;
   cc_rows : list row;
-  cc_obs : list cobs }.
+  cc_obs : list cobs;
+  cc_tree2 : otree;                                     (* histories: the second tree ([] = none)  *)
+  cc_ops : list sop }.                                  (* histories ([] = an ordinary case)       *)
 
 Definition dummy_tree : tree := T None [] [] [].
 
@@ -107,7 +117,112 @@ Definition check_one (c : ccase) (ob : cobs) : bool * bool * bool :=
   | _, _ => (false, true, false)
   end.
 
+(* ---- histories ---------------------------------------------------------------------------- *)
+Fixpoint pos_of_names (t : tree) (rest : list str) : option pos :=
+  match rest with
+  | [] => Some []
+  | nm :: rest' =>
+      match find_idx nm 0 (tkids t) with
+      | i :: _ => match nth_error (tkids t) i with
+                  | Some k => match pos_of_names k rest' with Some p => Some (i :: p) | None => None end
+                  | None => None
+                  end
+      | [] => None
+      end
+  end.
+(* names: the root's name first *)
+Definition pos_of_path (t : tree) (p : list str) : option pos :=
+  match p with
+  | r :: rest => if str_eqb r (tname t) then pos_of_names t rest else None
+  | [] => None
+  end.
+
+Fixpoint remove_nth {A} (i : nat) (l : list A) : list A :=
+  match l with [] => [] | x :: r => match i with 0 => r | S j => x :: remove_nth j r end end.
+Fixpoint remove_at (p : pos) (t : tree) : tree :=
+  match p with
+  | [] => t
+  | [i] => match t with T g n a ks => T g n a (remove_nth i ks) end
+  | i :: p' => match t with T g n a ks => T g n a (upd_nth i (remove_at p') ks) end
+  end.
+Fixpoint insert_sorted (k : tree) (l : list tree) : list tree :=
+  match l with
+  | [] => [k]
+  | x :: r => if str_ltb (tname k) (tname x) then k :: l else x :: insert_sorted k r
+  end.
+(* list.sort(key=name) is stable; sibling names are distinct anyway *)
+Definition sort_kids (t : tree) : tree :=
+  match t with T g n a ks => T g n a (fold_right insert_sorted [] ks) end.
+
+Definition set_nth {A} (i : nat) (x : A) (l : list A) : list A := upd_nth i (fun _ => x) l.
+
+(* flags of a history: (disagree, propfail); `ts` = the model's trees *)
+Fixpoint run_ops (c : ccase) (ts : list tree) (ops : list sop) : bool * bool :=
+  match ops with
+  | [] => (false, false)
+  | op :: rest =>
+      match op with
+      | SAdd ti path na ob =>
+          match nth_error ts ti, output_of ob with
+          | Some t, Some o =>
+              let i := MkIn (cc_sep c) (cc_dup c) t (cc_tsep c) [] (cc_pcol c) [(path, na)] in
+              let m := run KAddPath i in
+              let t' := match o_tree m with Some x => x | None => t end in
+              let r := run_ops c (set_nth ti t' ts) rest in
+              (negb (agree m o) || fst r, negb (prop_C05 KAddPath i o) || snd r)
+          | _, _ => (true, false)
+          end
+      | SDel ti p =>
+          match nth_error ts ti with
+          | Some t => match pos_of_path t p with
+                      | Some q => run_ops c (set_nth ti (remove_at q t) ts) rest
+                      | None => (true, false)
+                      end
+          | None => (true, false)
+          end
+      | SMove ti src dst =>
+          match nth_error ts ti with
+          | Some t =>
+              match pos_of_path t src with
+              | Some q =>
+                  match subtree_at t q with
+                  | Some sub =>
+                      let t1 := remove_at q t in
+                      match pos_of_path t1 dst with
+                      | Some d => run_ops c (set_nth ti (upd_at d (add_kid sub) t1) ts) rest
+                      | None => (true, false)
+                      end
+                  | None => (true, false)
+                  end
+              | None => (true, false)
+              end
+          | None => (true, false)
+          end
+      | SSort ti p =>
+          match nth_error ts ti with
+          | Some t => match pos_of_path t p with
+                      | Some q => run_ops c (set_nth ti (upd_at q sort_kids t) ts) rest
+                      | None => (true, false)
+                      end
+          | None => (true, false)
+          end
+      end
+  end.
+
+Definition check_ops (c : ccase) : nat :=
+  match decode (cc_tree c) with
+  | Some t0 =>
+      let ts := match cc_tree2 c with
+                | [] => [t0]
+                | l => match decode l with Some t1 => [t0; t1] | None => [t0] end
+                end in
+      let r := run_ops c ts (cc_ops c) in
+      flag (fst r) F_DISAGREE + flag (snd r) F_PROPFAIL
+  | None => F_DISAGREE
+  end.
+
 Definition check_C05 (c : ccase) : nat :=
+  if negb (is_nil (cc_ops c)) then check_ops c else
   let rs := map (check_one c) (cc_obs c) in
   if forallb (fun r => fst (fst r)) rs then F_SKIP else
   flag (existsb (fun r => snd (fst r)) rs) F_DISAGREE
